@@ -89,6 +89,14 @@ CHECKS["C08"] = dict(ref="5/C08", text="Functional half: pairs of real DistMatri
     "all invariants evaluated on the way); the same workloads run under the Go race detector with GOMAXPROCS varied.",
     note="Interleavings are exhaustive in the model for small constants and observed (not enumerated) in the code; data races are decided by the race detector on the executions that occur.",
     tech="TLA+ protocol specification (DistMatrixConc.tla) model-checked by TLC; hook logs of the real goroutines validated against it (Trace_Conc); relations between calls validated by TLC (Trace_Dist); Go race detector as observation")
+
+CHECKS["C18"] = dict(ref="5/C18", text="Markov.tla writes the textbook rate matrices of JC, K2P, F81, F84, TN93, GTR and (from the exported exchangeabilities) the seven protein models, "
+    "scaled to one substitution per unit time, and a scaling-and-squaring Taylor matrix exponential, all in IEEE doubles inside TLC (F64 module). TLC enumerates the "
+    "parameter grid (kappa, kappa1/kappa2, GTR rates, simplex points, model/user protein frequencies); the real models are (re-)initialised on the same objects and "
+    "P(t) is read for t in {0, 1e-8, 1e-3, 0.1, 0.25, 0.35, 1, 10, 11, 100}; TLC checks on the observed matrices: stochastic, P(0)=I, P(s+t)=P(s)P(t), detailed "
+    "balance, convergence, P(t)=Expm(Qt), analytical = eigen-based.", note="Tolerances 1e-9 (4 states), 1e-6 (20 states), 1e-5 (convergence at t=100); finite parameter grid. "
+    "Trusted: TLC, java.lang.Math, the F64 glue class; protein exchangeabilities are read from the code's exported tables.",
+    tech="TLA+ specification of the rate matrices and of the matrix exponential (Markov.tla, IEEE doubles via a TLC module override); TLC-generated parameter grid replayed into Go; observed P(t) validated by TLC (Trace_Markov)")
 NA = []
 def main():
     props = [json.loads(l)["id"] for l in open(os.path.join(V, "properties.jsonl"))]
